@@ -1,9 +1,9 @@
 SPECIFICATION Spec
 CONSTANTS
-  LenWord = 4
-  LenZsh = 5
-  LenParam = 5
-  LenStop = 5
+  LenWord = 3
+  LenZsh = 4
+  LenParam = 4
+  LenStop = 4
   MaxZero = 1
   Loops = TRUE
   Specials = TRUE
